@@ -76,6 +76,23 @@ def run(C):
                     fails.append('LazyArray(3, %s) access order %s: %r z=%r, eager %r z=%r' % (name, order, got, l.z, [_plain(C, e.s[i]) for i in order], e.z))
             except Exception as ex:
                 fails.append('LazyArray(3, %s) access order %s raises %s: %s' % (name, order, type(ex).__name__, str(ex)[:80]))
+    # lazy containers nested in lazy containers: the outer one skips the inner by its size, anonymous members included
+    nested = [
+        ('LazyArray(3, LazyStruct(Const, a=Byte))', C.LazyArray(3, C.LazyStruct(C.Const(b'\xaa'), 'a' / C.Byte)), C.Array(3, C.Struct(C.Const(b'\xaa'), 'a' / C.Byte)), b'\xaa\x01\xaa\x02\xaa\x03',
+         lambda l, e: [_plain(C, l[i].a) for i in (2, 0, 1)] == [e[i].a for i in (2, 0, 1)]),
+        ('LazyStruct(hdr=LazyStruct(Padding(2), x=Byte), b=Byte)', C.LazyStruct('hdr' / C.LazyStruct(C.Padding(2), 'x' / C.Byte), 'b' / C.Byte),
+         C.Struct('hdr' / C.Struct(C.Padding(2), 'x' / C.Byte), 'b' / C.Byte), b'\x00\x00\x05\x06', lambda l, e: (l.b, l.hdr.x) == (e.b, e.hdr.x)),
+    ]
+    for name, lz, eg, data, same in nested:
+        n += 1
+        try:
+            s1, s2 = io.BytesIO(data + b'\x77'), io.BytesIO(data + b'\x77')
+            e = eg.parse_stream(s1)
+            l = lz.parse_stream(s2)
+            if not same(l, e) or s1.tell() != s2.tell():
+                fails.append('%s.parse(%r): values or final position (%d) differ from the eager parse (%d)' % (name, data, s2.tell(), s1.tell()))
+        except Exception as ex:
+            fails.append('%s raises %s: %s' % (name, type(ex).__name__, str(ex)[:80]))
     # access during the enclosing parse must not disturb it
     n += 1
     try:
